@@ -27,7 +27,7 @@ func runC04(c *core.Ctx) {
 		ks = []int{0, 1, 2, 3, 4, 5, 6, 7, 8, 9, 10, 12, 15, 16, 17, 24, 31, 32, 33, 64, 100}
 	}
 	n := 0
-	for _, t := range dyn.Types[:dyn.NBuiltin] {
+	for _, t := range dyn.ElemTypes() {
 		for ch := 1; ch <= 8; ch++ {
 			for _, k := range ks {
 				wins := [][2]int{{0, 0}, {0, k / 2}, {0, k}, {1, 1}, {1, k}, {k / 2, k / 2}, {k / 2, (k + k/2) / 2}, {k, k}}
@@ -52,7 +52,7 @@ func runC04(c *core.Ctx) {
 		}
 	}
 	// far beyond capacity: 10^4 calls on a few shapes
-	for i, t := range dyn.Types[:dyn.NBuiltin] {
+	for i, t := range dyn.ElemTypes() {
 		if c.Mine(i) && c.Want("long/"+t.Name) {
 			c04Case(c, t, 1+i%8, 6, 1, 3, "long/"+t.Name, 10000)
 		}
